@@ -496,7 +496,7 @@ class Mode:
 
 
 PURE_BUILTINS = {"len", "isinstance", "id", "hasattr", "bool", "tuple", "frozenset", "min", "max", "abs", "callable", "type", "iter", "int"}
-SPEC_FUNCS = {"values", "entry", "implies", "old", "call", "call2", "all", "any", "no_dups", "seq", "setof", "filt", "addall", "cat", "forall", "exists",
+SPEC_FUNCS = {"after", "values", "entry", "implies", "old", "call", "call2", "all", "any", "no_dups", "seq", "setof", "filt", "addall", "cat", "forall", "exists",
               "is_tuple", "ite", "fresh", "contents", "keys", "dget", "dhas", "rng", "idof", "rev", "prefix", "isinst", "truth",
               "subseq_of", "perm", "count", "sorted_by", "index", "pair", "slice_adj", "typeis", "allocated", "ghost"}
 
@@ -1138,6 +1138,19 @@ def _patch_engine():
             raise ContractError("entry() outside a loop invariant")
         return self.pev(node.args[0], es.py, Mode(True, m.old, None, m.result, m.binds, m.under))
     E.sf_entry = sf_entry
+
+    def sf_after(self, node, st, m):
+        """after("callee text", e): e evaluated in the state right after that (contract) call returned on this path;
+        on a path where the call did not happen: in the current state"""
+        label = self.pev(node.args[0], st, m).py
+        ss = st.ghost.get("$after:" + label)
+        base = ss if ss is not None else st
+        # parameters keep their entry values
+        env = dict(base.env)
+        for n_, v_ in st.env.items():
+            env.setdefault(n_, v_)
+        return self.pev(node.args[1], base.copy(env=env), Mode(True, m.old, None, m.result, m.binds, m.under))
+    E.sf_after = sf_after
 
     def sf_call(self, node, st, m):
         f = self.pev(node.args[0], st, m)
@@ -2954,6 +2967,13 @@ def _patch_calls():
             for cl in CLASSES[rh].rep:
                 facts.append(sub.truth(sub.pev(ast.parse(cl, mode="eval").body, rst, Mode(True)), rst))
         post = post.assume(*facts) if facts else post
+        # remember the state right after this call: postconditions may refer to it with after("<callee text>", expr)
+        try:
+            label = ast.unparse(node.func)
+        except Exception:
+            label = fnc.qualname
+        snap_state = post.copy(env=dict(post.env, **{"$result": res}))
+        post = post.copy(ghost=dict(post.ghost, **{"$after:" + label: snap_state}))
         k(res, post)
     E.do_contract_call = do_contract_call
 
@@ -3021,6 +3041,12 @@ def _patch_run():
         pre = []
         for cl in self.requires:
             pre.append(self.truth(self.pev(ast.parse(cl, mode="eval").body, st, m), st))
+        for cl in self.variant.get("extra_requires", []):
+            # exclusion clauses of known findings: a clause that does not type-check in this case split does not apply to it
+            try:
+                pre.append(self.truth(self.pev(ast.parse(cl, mode="eval").body, st, m), st))
+            except (OutOfSubset, ContractError):
+                pass
         if self.cls and self.cls.rep and self.c.assume_rep and "self" in env:
             for cl in self.cls.rep:
                 pre.append(self.truth(self.pev(ast.parse(cl, mode="eval").body, st, m), st))
@@ -3097,7 +3123,7 @@ def _patch_run():
         # postconditions are evaluated with the *parameters'* entry values (Python rebinding of a parameter is local)
         rst = st.copy(env=dict(st.env, **{n: self.st0.env[n] for n in self.st0.env}))
         m = Mode(True, self.st0, None, sv, {"out": SV("seq", st.out)})
-        for i, cl in enumerate(list(self.c.ensures) + list(self.variant.get("ensures", []))):
+        for i, cl in enumerate(list(self.c.ensures) + list(self.variant.get("ensures", [])) + list(self.c.s_ensures)):
             g = self.truth(self.pev(ast.parse(cl, mode="eval").body, rst, m), rst)
             self.oblige(st, g, f"{tag}.ensures[{i}]", node)
         for exc_name, cond in self.raises.items():
